@@ -177,3 +177,33 @@ def _replay_denominator(model, contract):
 
 
 CONTRACTS["framework:ProjectFramework._validate_characteristics#denominator_rules"]["replay_hook"] = _replay_denominator
+
+
+# ---- ProjectFramework.get_databook_units (C16 / C18; F21 lived here): the units a quantity is entered in.  Compartments and characteristics: Number, or Fraction with
+# a denominator.  Parameters with a timescale: `Duration (<timescale, plural>)`, `<Number|Probability|Rate> (per <timescale>)`, and a refusal for missing or other units;
+# without a timescale: the stated units, or N.A. when there are none.  The framework lookup, the row of the quantity and format_duration are ghosts.
+def _env_units(item_type, denominator=None, fmt=None, timescale=float("nan")):
+    def make(it):
+        from pyvc.core import Opaque
+        from pyvc.interp import PyObjV
+        from pyvc import source
+
+        return {"self": PyObjV("ProjectFramework", source.load("framework"), {"name": "fw"}), "code_name": "q", "SPEC": Opaque("row of the quantity"), "TYPE": item_type, "HAS_DENOM_COLUMN": item_type != "par",
+                "DENOM": denominator, "FORMAT": fmt, "TIMESCALE": timescale}
+
+    return make
+
+
+_units_stubs = {"item_spec['denominator']": "DENOM", "item_spec['format']": "FORMAT", "item_spec['timescale']": "TIMESCALE", "'denominator' in item_spec.index": "HAS_DENOM_COLUMN"}
+_units_calls = {"self.get_variable": (lambda it, name: (it.live_env["SPEC"], it.live_env["TYPE"])), "pd.isna": (lambda it, v: v is None or (isinstance(v, float) and v != v)),
+                "format_duration": (lambda it, t, pluralize=False: "years" if pluralize else "year")}
+for _tag, _kw, _want in (("compartment", dict(item_type="comp"), "Number"), ("characteristic_with_a_denominator", dict(item_type="charac", denominator="alive"), "Fraction"), ("characteristic_without_a_denominator", dict(item_type="charac"), "Number"),
+                         ("duration_with_a_timescale", dict(item_type="par", fmt=" Duration ", timescale=1.0), "Duration (years)"), ("probability_with_a_timescale", dict(item_type="par", fmt="probability", timescale=1.0), "Probability (per year)"),
+                         ("number_with_a_timescale", dict(item_type="par", fmt="Number", timescale=1.0), "Number (per year)"), ("rate_with_a_timescale", dict(item_type="par", fmt="rate", timescale=1.0), "Rate (per year)"),
+                         ("units_without_a_timescale", dict(item_type="par", fmt=" proportion "), "proportion"), ("no_units_and_no_timescale", dict(item_type="par"), "N.A.")):
+    CONTRACTS["framework:ProjectFramework.get_databook_units#%s" % _tag] = dict(
+        schema=schema, make_env=_env_units(**_kw), stubs=_units_stubs, call_stubs=_units_calls,
+        ensures=[("C16+C18.the_databook_units_of_the_quantity", "result == %r" % _want)], defined_props=["C16", "C18"])
+for _tag, _kw in (("a_timescale_without_units", dict(item_type="par", timescale=1.0)), ("a_timescale_with_units_that_cannot_be_converted", dict(item_type="par", fmt="proportion", timescale=1.0))):
+    CONTRACTS["framework:ProjectFramework.get_databook_units#%s" % _tag] = dict(
+        schema=schema, make_env=_env_units(**_kw), stubs=_units_stubs, call_stubs=_units_calls, raises={"InvalidFramework": "True"}, raises_props=["C18"], ensures=[], defined_props=["C16", "C18"])
